@@ -248,12 +248,12 @@ def obligations(tier):
     out = []
     for kind in KINDS:
         out.append(Ob("tx/" + kind, h_tx, dict(kind=kind, nmsg=nmsg, maxlen=maxlen),
-                      budget=240 if quick else 900, covers=["partial-send", "would-block", "full-drain"],
+                      budget=240 if quick else 2400, covers=["partial-send", "would-block", "full-drain"],
                       bounds=dict(messages="<=%d" % nmsg, message_length="0..%d" % maxlen,
                                   send_results="count 0..len | would-block | ECONNRESET (symbolic per call)",
                                   calls="1 service call from an arbitrary queue (inductive)")))
         out.append(Ob("rx/" + kind, h_rx, dict(kind=kind, ncalls=ncalls, total=total),
-                      budget=240 if quick else 900, covers=["multi-chunk", "once"],
+                      budget=240 if quick else 2400, covers=["multi-chunk", "once"],
                       bounds=dict(recv_calls="<=%d scripted" % ncalls, stream_bytes=total, bufsize=4,
                                   recv_results="chunk 1..min(bs,left) | would-block | closed | ECONNRESET",
                                   prefix="0..2 bytes already buffered")))
